@@ -174,6 +174,9 @@ func (p *Permission) IsAllowed(hash util.Uint160, m *Manifest, method string) bo
 func (p *Permission) UnmarshalJSON(data []byte) error {
 	// A missing (or null) member must not turn into a wildcard, which is the
 	// zero value of both fields.
+	if err := checkRepeatedMembers(data, false); err != nil {
+		return err
+	}
 	raw := make(map[string]json.RawMessage)
 	if err := json.Unmarshal(data, &raw); err != nil {
 		return err
